@@ -76,7 +76,7 @@ def check(c):
     n = 2
     qucumber.set_random_seed(c["seed"], cpu=True, gpu=False, quiet=True)
     state = cls(n, 3, gpu=False) if c["type"] != "density" else cls(n, 3, 1, gpu=False)   # nh, na != n
-    data = torch.tensor([[0.0, 1.0], [1.0, 1.0], [0.0, 0.0]], dtype=torch.double)
+    data = torch.tensor([[0.0, 1.0], [0.0, 0.0], [1.0, 0.0]], dtype=torch.double)     # the rotated (XY) row uses outcome 00
     bases = np.array([["Z", "Z"], ["X", "Y"], ["Z", "Z"]])
     fitkw = {"input_bases": bases} if c["type"] != "positive" else {}
 
